@@ -154,11 +154,16 @@ func (vm *VM) SetReturnValue(value Element) {
 	}
 }
 
-func (vm *VM) BeginScope() {
+// BeginScope - open a new block in the current module's scope.
+// It returns the scope, so that the block can be closed on the very same
+// scope later (`defer scope.EndScope()`) even if the "current" module has
+// changed meanwhile, e.g. while an error unwinds through calls into other modules.
+func (vm *VM) BeginScope() *Scope {
 	scope := vm.getCurrentScope()
 	if scope != nil {
 		scope.BeginScope()
 	}
+	return scope
 }
 
 // EndScope - end current scope
